@@ -226,6 +226,19 @@ class World:
         except Exception as e:  # noqa
             return exn_class(e)
 
+    @staticmethod
+    def _as_iterable(items, toks):
+        """the bulk calls and the reorder setters accept any iterable: hand the same elements over as a list,
+        a tuple, a one-shot iterator or a generator (chosen deterministically from the op text)"""
+        k = sum(len(x) + (ord(x[-1]) if x else 0) for x in toks) % 4
+        if k == 0:
+            return list(items)
+        if k == 1:
+            return tuple(items)
+        if k == 2:
+            return iter(list(items))
+        return (x for x in list(items))
+
     def _props(self, toks):
         n = int(toks[0])
         d = {}
@@ -273,14 +286,14 @@ class World:
         elif o == 'removefrom':
             rel, p = t[1], self.obj(t[2])
             cs = [self.obj(x) for x in t[4:4 + int(t[3])]]
-            getattr(p, REL[rel][4])(cs)
+            getattr(p, REL[rel][4])(self._as_iterable(cs, t))
         elif o == 'reorder':
             rel, p = t[1], self.obj(t[2])
             cs = [self.obj(x) for x in t[4:4 + int(t[3])]]
-            setattr(p, REL[rel][0], cs)
+            setattr(p, REL[rel][0], self._as_iterable(cs, t))
         elif o == 'reorderwire':
             w = self.obj(t[1])
-            w.pins = [self.pin_arg(x) for x in t[3:3 + int(t[2])]]
+            w.pins = self._as_iterable([self.pin_arg(x) for x in t[3:3 + int(t[2])]], t)
         elif o == 'connect':
             w, p = self.obj(t[1]), self.pin_arg(t[2])
             if t[3] == '~':
@@ -291,7 +304,7 @@ class World:
             self.obj(t[1]).disconnect_pin(self.pin_arg(t[2]))
         elif o == 'disconnectfrom':
             w = self.obj(t[1])
-            w.disconnect_pins_from([self.pin_arg(x) for x in t[3:3 + int(t[2])]])
+            w.disconnect_pins_from(self._as_iterable([self.pin_arg(x) for x in t[3:3 + int(t[2])]], t))
         elif o == 'setref':
             self.obj(t[1]).reference = self.obj(t[2])
         elif o == 'settop':
@@ -376,12 +389,12 @@ class World:
                 self.tok_id(o.library), self._slist(o.ports), self._slist(o.cables), self._slist(o.children),
                 ' '.join(sorted(self.tok_id(x) for x in o.references)), self._sdata(o), self._sns(o))
         elif k == 'port':
-            s += '; par=%s; pins=%s; dn=%s; sc=%s; lo=%d; dir=%d; data=%s' % (
-                self.tok_id(o.definition), self._slist(o.pins), b(o.is_downto), b(o.is_scalar), o.lower_index,
+            s += '; par=%s; pins=%s; dn=%s; sc=%s; rs=%s; lo=%d; dir=%d; data=%s' % (
+                self.tok_id(o.definition), self._slist(o.pins), b(o.is_downto), b(o.is_scalar), b(o._is_scalar), o.lower_index,
                 o.direction.value, self._sdata(o))
         elif k == 'cable':
-            s += '; par=%s; wires=%s; dn=%s; sc=%s; lo=%d; data=%s' % (
-                self.tok_id(o.definition), self._slist(o.wires), b(o.is_downto), b(o.is_scalar), o.lower_index,
+            s += '; par=%s; wires=%s; dn=%s; sc=%s; rs=%s; lo=%d; data=%s' % (
+                self.tok_id(o.definition), self._slist(o.wires), b(o.is_downto), b(o.is_scalar), b(o._is_scalar), o.lower_index,
                 self._sdata(o))
         elif k == 'wire':
             s += '; par=%s; pins=[%s]' % (self.tok_id(o.cable), ' '.join(self.tok_pin(p) for p in o.pins))
